@@ -24,12 +24,12 @@ Fixpoint table_actions (desc : option pstr) (fold : bool) (kvs : list (pstr * ta
       end
   end.
 
-(* static part of card.select(k1).select(k2)...: the checks on the names *)
+(* static part of card.select(k1).select(k2)...: the checks on the names.  Card.select and Section.select
+   both reject a key one of whose names is empty (the empty key splits into the one empty name) *)
 Definition chain_ok (ks : list pstr) : bool :=
   match ks with
   | [] => false
-  | k :: ks' => negb (is_empty k) && nonempty (last (split_names k) [])
-                && forallb (fun k' => forallb nonempty (split_names k')) ks'
+  | _ :: _ => forallb (fun k => forallb nonempty (split_names k)) ks
   end.
 Definition chain_path (ks : list pstr) : list pstr := flat_map split_names ks.
 
@@ -47,9 +47,12 @@ Definition op_actions (o : op) (m : list (pstr * pstr)) : list action :=
       [AAdd (split_names sect) (model_plot_section sect desc html)]
   | OSelect _ | OSelectChain _ => []
   | ODelete key =>
-      if is_empty key || is_empty (last (split_names key) []) then [] else [ADel (split_names key)]
+      if forallb nonempty (split_names key) then [ADel (split_names key)] else []
   | ODeleteList names =>
-      if is_empty (last names []) then [] else [ADel names]
+      match names with
+      | [] => []
+      | _ :: _ => if forallb nonempty names then [ADel names] else []
+      end
   | OSetVisible ks b => if chain_ok ks then [AUpd (chain_path ks) (Some b) None None] else []
   | OSetFolded ks b => if chain_ok ks then [AUpd (chain_path ks) None (Some b) None] else []
   | OSetTitle ks t => if chain_ok ks then [AUpd (chain_path ks) None None (Some t)] else []
